@@ -4,6 +4,7 @@ import (
 	"fmt"
 	"go/token"
 	"go/types"
+	"sort"
 	"strings"
 
 	"verifchk/internal/an"
@@ -25,6 +26,8 @@ func runC13(c *an.Ctx) {
 	r13c(c)
 	r13d(c)
 	r13e(c)
+	r13f(c)
+	r13g(c)
 }
 
 func r13a(c *an.Ctx) {
@@ -585,4 +588,147 @@ func r13e(c *an.Ctx) {
 	}
 	c.Ob("(*core/task.Manager).configureTasks|alias-conflict", store.Pos(), ok && seen && pref, "an already defined global alias must never be overwritten: same endpoint => skip, different endpoint => error")
 	_ = token.NoPos
+}
+
+// R13f: a role generated from a template has its own connect / bind lists: the target of an outbound channel is resolved
+// per generated role (it may name the generated role's own siblings), so a list that shares its backing array with the
+// template's keeps the first role's resolution for all of them.
+func r13f(c *an.Ctx) {
+	c.Rule("R13f", "roleBase.copy: Connect, Bind and Constraints of the copy are freshly allocated slices", 1)
+	freshSliceMembers(c, "roleBase.copy", []string{"Connect", "Bind", "Constraints"})
+}
+
+// freshSliceMembers: each named slice member of the struct returned by core/workflow.<fnName> is a newly made slice
+// (make / append to nil / slices.Clone), never a re-slicing of the original's.
+func freshSliceMembers(c *an.Ctx, fnName string, fields []string) {
+	fn := c.MustFn("core/workflow", fnName)
+	if fn == nil {
+		return
+	}
+	c.Subject()
+	var lit *ssa.Alloc
+	for _, r := range an.Returns(fn) {
+		if mi, ok := an.RetVal(r, 0).(*ssa.MakeInterface); ok {
+			if al, isAl := mi.X.(*ssa.Alloc); isAl {
+				lit = al
+			}
+		}
+	}
+	if lit == nil {
+		c.Ob("core/workflow."+fnName+"|slices-fresh", fn.Pos(), false, "cannot find the struct returned by copy()")
+		return
+	}
+	var fresh func(v ssa.Value, depth int) bool
+	fresh = func(v ssa.Value, depth int) bool {
+		if depth > 5 {
+			return false
+		}
+		switch x := v.(type) {
+		case *ssa.MakeSlice:
+			return true
+		case *ssa.Const:
+			return x.Value == nil // nil slice
+		case *ssa.ChangeType:
+			return fresh(x.X, depth+1)
+		case *ssa.Slice:
+			// a slice of a fresh local array / slice
+			if al, ok := x.X.(*ssa.Alloc); ok {
+				_ = al
+				return true
+			}
+			return fresh(x.X, depth+1)
+		case *ssa.Call:
+			n := an.CalleeName(&x.Call)
+			if n == "builtin.append" {
+				return fresh(x.Call.Args[0], depth+1)
+			}
+			return n == "slices.Clone" || strings.HasPrefix(n, "slices.Clone[")
+		case *ssa.Phi:
+			for _, e := range x.Edges {
+				if !fresh(e, depth+1) {
+					return false
+				}
+			}
+			return len(x.Edges) > 0
+		}
+		return false
+	}
+	var bad []string
+	for _, fld := range fields {
+		found, okF := false, true
+		for _, r := range *lit.Referrers() {
+			fa, ok := r.(*ssa.FieldAddr)
+			if !ok || !isFieldNamed(fa, fld) || fa.Referrers() == nil {
+				continue
+			}
+			for _, rr := range *fa.Referrers() {
+				if st, isSt := rr.(*ssa.Store); isSt && st.Addr == ssa.Value(fa) {
+					found = true
+					if !fresh(st.Val, 0) {
+						okF = false
+					}
+				}
+			}
+		}
+		if !found || !okF {
+			bad = append(bad, fld)
+		}
+	}
+	c.Ob("core/workflow."+fnName+"|slices-fresh", fn.Pos(), len(bad) == 0,
+		"the copied role's %v is not a newly allocated slice (it re-slices or aliases the original's backing array): what one generated role resolves or appends there is seen by the template and by every other role generated from it", bad)
+}
+
+// R13g: "together with the inbound side's transport": the transport written into a channel's FairMQ properties is the
+// one handed in by the resolution (the bound endpoint's), never replaced by the channel's own declaration.
+func r13g(c *an.Ctx) {
+	c.Rule("R13g", "buildFMQMap: the transport property is the transport argument, not the channel's own field", 2)
+	for _, name := range []string{"Outbound.buildFMQMap", "Inbound.buildFMQMap"} {
+		fn := c.MustFn("core/task/channel", name)
+		if fn == nil {
+			continue
+		}
+		var tp *ssa.Parameter
+		for _, p := range fn.Params {
+			if strings.HasSuffix(p.Type().String(), "channel.TransportType") {
+				tp = p
+			}
+		}
+		n := 0
+		an.Instrs(fn, func(in ssa.Instruction) {
+			mu, ok := in.(*ssa.MapUpdate)
+			if !ok {
+				return
+			}
+			// the entry whose key is, or ends with, "transport" ("chans.<name>.0.transport" spelled as a concatenation)
+			isTransportKey := false
+			if k, isS := an.ConstString(mu.Key); isS {
+				isTransportKey = k == "transport" || strings.HasSuffix(k, ".transport")
+			} else if bo, isBo := mu.Key.(*ssa.BinOp); isBo && bo.Op == token.ADD {
+				if k, isS := an.ConstString(bo.Y); isS && (k == "transport" || strings.HasSuffix(k, ".transport")) {
+					isTransportKey = true
+				}
+			}
+			if !isTransportKey {
+				return
+			}
+			n++
+			c.Subject()
+			fromParam, other := false, []string{}
+			for _, l := range an.BackSlice(mu.Value, an.SliceOpts{}) {
+				switch {
+				case l.Kind == "param" && tp != nil && l.Val == ssa.Value(tp):
+					fromParam = true
+				case l.Kind == "const" || l.Kind == "func":
+				default:
+					other = append(other, l.Kind+":"+l.Path)
+				}
+			}
+			sort.Strings(other)
+			c.Ob("(*core/task/channel."+strings.Replace(name, ".", ").", 1)+"|transport-is-the-argument", mu.Pos(), fromParam && len(other) == 0,
+				"the transport property is computed from %v besides (or instead of) the transport argument: the channel is configured with a transport other than the one its peer was bound with", other)
+		})
+		if n == 0 {
+			c.Lost("the \"transport\" entry of the property map in " + name)
+		}
+	}
 }
